@@ -425,7 +425,7 @@ fn diff_phrase(exp: &Value, got: &Value) -> String {
 
 struct Ctx {
     rep: Report,
-    streams: NdjsonWriter,
+    streams: Vec<Value>,
     seen: HashSet<Vec<u8>>,
     n_writes: u64,
     n_reads: u64,
@@ -459,7 +459,7 @@ impl Ctx {
         }
         self.n_logged += 1;
         self.streams
-            .emit(&json!({"ev": "stream", "src": src, "ts": ts, "st": st.name(), "ds": ds, "bytes": bytes_json(bytes)}));
+            .push(json!({"ev": "stream", "src": src, "ts": ts, "st": st.name(), "ds": ds, "bytes": bytes_json(bytes)}));
     }
 }
 
@@ -612,26 +612,68 @@ fn run_replay(a: &std::collections::HashMap<String, String>) {
     std::fs::create_dir_all(out).unwrap();
     let props: HashSet<String> =
         a.get("props").map(|s| s.as_str()).unwrap_or("C01,C02,C04").split(',').map(|s| s.to_string()).collect();
-    let mut cx = Ctx {
-        rep: Report::new(),
-        streams: NdjsonWriter::create(&format!("{out}/streams.ndjson")),
-        seen: HashSet::new(),
-        n_writes: 0,
-        n_reads: 0,
-        n_equal_streams: 0,
-        n_logged: 0,
-        sample: a.get("sample").and_then(|s| s.parse().ok()).unwrap_or(0),
-        drift: 0,
-        drift_first: None,
-        props,
-    };
-    cx.rep.cap = 400;
-    for c in &cases {
-        cx.rep.cases += 1;
-        replay_case(&mut cx, c);
+    let sample: u64 = a.get("sample").and_then(|s| s.parse().ok()).unwrap_or(0);
+    let nthreads: usize = a.get("threads").and_then(|s| s.parse().ok()).unwrap_or(4).max(1);
+    // cases are independent: worker t takes the cases with index = t (mod nthreads)
+    let parts: Vec<Ctx> = std::thread::scope(|sc| {
+        let hs: Vec<_> = (0..nthreads)
+            .map(|t| {
+                let cases = &cases;
+                let props = props.clone();
+                sc.spawn(move || {
+                    let mut cx = Ctx {
+                        rep: Report::new(),
+                        streams: Vec::new(),
+                        seen: HashSet::new(),
+                        n_writes: 0,
+                        n_reads: 0,
+                        n_equal_streams: 0,
+                        n_logged: 0,
+                        sample,
+                        drift: 0,
+                        drift_first: None,
+                        props,
+                    };
+                    cx.rep.cap = 400;
+                    for (i, c) in cases.iter().enumerate() {
+                        if i % nthreads != t {
+                            continue;
+                        }
+                        cx.rep.cases += 1;
+                        replay_case(&mut cx, c);
+                    }
+                    cx
+                })
+            })
+            .collect();
+        hs.into_iter().map(|h| h.join().expect("worker thread")).collect()
+    });
+    let mut rep = Report::new();
+    rep.cap = 400;
+    let mut w = NdjsonWriter::create(&format!("{out}/streams.ndjson"));
+    let (mut n_writes, mut n_reads, mut n_equal_streams, mut n_logged, mut drift) = (0u64, 0u64, 0u64, 0u64, 0u64);
+    let mut drift_first: Option<Value> = None;
+    for cx in parts {
+        rep.cases += cx.rep.cases;
+        rep.mismatch_count += cx.rep.mismatch_count;
+        for m in cx.rep.mismatches {
+            if rep.mismatches.len() < rep.cap {
+                rep.mismatches.push(m);
+            }
+        }
+        for e in &cx.streams {
+            w.emit(e);
+        }
+        n_writes += cx.n_writes;
+        n_reads += cx.n_reads;
+        n_equal_streams += cx.n_equal_streams;
+        n_logged += cx.n_logged;
+        drift += cx.drift;
+        if drift_first.is_none() {
+            drift_first = cx.drift_first;
+        }
     }
-    let Ctx { mut rep, streams, n_writes, n_reads, n_equal_streams, n_logged, drift, drift_first, .. } = cx;
-    streams.finish();
+    w.finish();
     rep.extra.insert("writes".into(), json!(n_writes));
     rep.extra.insert("reads".into(), json!(n_reads));
     rep.extra.insert("streams_equal_to_wire".into(), json!(n_equal_streams));
